@@ -702,7 +702,13 @@ impl MqttClientImpl {
                 self.desired_stop_options = None;
                 self.desired_state = ClientImplState::Connected;
             }
-            OperationOptions::Stop(options) => {
+            OperationOptions::Stop(mut options) => {
+
+                if options.disconnect.is_some() && self.protocol_state.state() != ProtocolStateType::Connected {
+                    // there is no established MQTT connection to send a DISCONNECT on; waiting for its
+                    // flush would make the stop request wait forever
+                    options.disconnect = None;
+                }
 
                 if let Some(disconnect) = &options.disconnect {
                     debug!("Submitting disconnect operation to protocol state");
